@@ -30,7 +30,7 @@ ASSUMPTIONS = [
     "early stop: fewer rows than load steps (Newton) or a last arc-length parameter strictly inside the requested "
     "span (Riks) requires a recorded warning",
 ]
-CASES = {"quick": 24, "thorough": 600}
+CASES = {"quick": 36, "thorough": 600}
 SHARDS = {"quick": 12, "thorough": 16}
 TECHNIQUE = "generated static problems; validity predicate (equilibrium residual recomputed), metamorphic relation (rigid placement of the whole problem), early-stop announcement"
 LEVEL_TEXT = (
@@ -58,7 +58,11 @@ def _case(draw):
                 "BF": (np.array(draw(gen.unit_vec3())) * sc * draw(gen.f(0.0, 1.0))).tolist(),
                 "M": (np.array(draw(gen.unit_vec3())) * EI / L * draw(gen.f(0.0, 1.0))).tolist(),
                 "BM": (np.array(draw(gen.unit_vec3())) * EI / L * draw(gen.f(0.0, 1.0))).tolist(),
-                "psi": draw(gen.rotvec(min_exp=-1, near_max=False)), "b": [draw(gen.f(-2, 2)) for _ in range(3)]}
+                # placement: any rotation, or one beyond three quarters of a half turn (absolute cross-section rotations
+                # beyond 180 degrees then occur along the bent rod)
+                "psi": draw(gen.rotvec(min_exp=-1, near_max=False)) if draw(st.integers(0, 2)) else
+                       (np.array(draw(gen.unit_vec3())) * draw(gen.f(2.4, 3.1))).tolist(),
+                "b": [draw(gen.f(-2, 2)) for _ in range(3)]}
     solver = draw(st.sampled_from(["Newton", "Riks", "Riks"]))
     return {"kind": kind, "solver": solver, "nsteps": draw(st.integers(1, 8)),
             "preload": draw(st.sampled_from([0.0, 0.3, 0.6])) if solver == "Newton" else 0.0,
